@@ -86,3 +86,19 @@ Definition emf_run (x : sx) : sx :=
   let ks := map dec_call (sx_list (sx_nth x 1)) in
   let sorted := sx_bool (sx_nth x 2) in
   L (map (enc_result sorted) (run_calls c (fresh c) ks)).
+
+(* DISPATCH 300 emf_spec_run *)
+(* the reference interpretation: for an accepted call, the printed documents of Spec.emf_docs (sorted lines);
+   for a rejected call the model's verdict.  Single calls on a fresh formatter, all-accepting writer. *)
+From MV Require Import Json.Json Emf.Spec.
+Definition spec_call (c : config) (k : call) : sx :=
+  let '(_, r, out) := format_call c (fresh c) k in
+  match r with
+  | ROk =>
+      let docs := emf_docs c (c_mult k) (c_entry k) (c_now k) (c_ftab k) in
+      L [L [A 0%Z]; L (map B (sort_bytes (map (fun d => print d ++ [10%N]) docs)))]
+  | _ => enc_result true (r, out)
+  end.
+Definition emf_spec_run (x : sx) : sx :=
+  let c := dec_config (sx_nth x 0) in
+  L (map (spec_call c) (map dec_call (sx_list (sx_nth x 1)))).
